@@ -553,6 +553,38 @@ pub fn run(rec: &mut Recorder, w: &mut World, tier: &str, seed: u64) {
         else { rec.nontrivial_case(&label); rec.count_n("decisions-checked", (sc.threads * sc.rounds * sc.reqs.len()) as u64); }
         rec.exec(w, "e.cached\tfalse");
     }
+    // ---- more distinct (user, role) pairs than the role manager's link cache holds (50): most g() calls of every thread reach
+    //      the graph search itself, side by side, with different pairs and different answers (plain enforcer: no decision cache
+    //      in front) ----
+    for si in 0..(if thorough { 4 } else { 1 }) * rec.budget as usize {
+        let rbk = ks.iter().find(|k| k.name == "rbac").unwrap().clone();
+        let m = model_of(&rbk, E_ALLOW, false, "", false);
+        rec.begin();
+        rec.exec(w, "e.cached\tfalse");
+        let n_users = 60;
+        let roles = ["r0", "r1", "r2", "r3", "r4", "r5"];
+        let mut lines: Vec<Vec<String>> = vec![];
+        for (i, r) in roles.iter().enumerate() { lines.push(sv(&["p", "p", r, if i % 2 == 0 { "data1" } else { "data2" }, "read"])); }
+        for i in 0..n_users { let r = roles[(i * 7 + si) % roles.len()]; lines.push(sv(&["g", "g", &format!("u{}", i), r])); if i % 3 == 0 { lines.push(sv(&["g", "g", &format!("u{}", i), roles[(i + 1) % roles.len()]])); } }
+        lines.push(sv(&["g", "g", "r0", "r1"])); lines.push(sv(&["g", "g", "r2", "r3"]));
+        if new_enforcer(rec, w, &m, "memory", &lines, "", false) != "ok" { rec.fail("new-failed", "cannot build the many-role-pairs enforcer".into()); continue; }
+        let setup: Vec<String> = rec.current.clone();
+        let mut reqs: Vec<Vec<String>> = vec![];
+        for i in 0..n_users { for o in ["data1", "data2"] { reqs.push(vec![sval(&format!("u{}", i)), sval(o), sval("read")]); } }
+        let req_strs: Vec<String> = reqs.iter().map(|r| r.join(",")).collect();
+        let mut row = String::new();
+        for ch in reqs.chunks(60) { row.push_str(&rec.exec(w, &format!("e.enfs\t{}", enc_reqs(ch)))); }
+        let sc = Scenario { what: "many-role-pairs".into(), setup, history: vec![], reqs: req_strs, rows: vec![row], perms: vec![], irows: vec![],
+            threads: if thorough { 16 } else { 8 }, rounds: if thorough { 120 } else { 40 }, seed: rng.next(), writer: false, handle: "none".into(), helpers: false, rendezvous: false,
+            users: vec![], watchdog_ms: 60000, ctx: None, ctx_rows: vec![], ctx2: None, ctx2_rows: vec![] };
+        let label = format!("{} threads={} distinct requests={} run {}", sc.what, sc.threads, sc.reqs.len(), si);
+        let out = rec.exec_impl_only(w, &format!("conc.run\t{}", esc(&serde_json::to_string(&sc).unwrap())));
+        rec.count(&format!("run:many-role-pairs:{}", out.split(|c| c == ':' || c == ' ').next().unwrap_or("")));
+        if out.starts_with("timeout") { rec.fail("deadlock", format!("[{}] a call never returned: {}", label, out)); }
+        else if out.starts_with("mismatch") { rec.fail("decision-not-serial", format!("[{}] {}", label, out)); }
+        else if !out.starts_with("ok") { rec.fail("concurrent-run-crashed", format!("[{}] {}", label, out)); }
+        else { rec.nontrivial_case(&label); rec.count_n("decisions-checked", (sc.threads * sc.rounds * sc.reqs.len()) as u64); }
+    }
     // ---- a domain-matching function: one request domain matches several stored domains, so has_link walks several
     //      graphs per call; its result cache (feature `cached`) is shared by all threads (implementation only: pattern
     //      domains are outside the Lean role-graph model; the serial rows come from the crate itself, single-threaded) ----
